@@ -154,7 +154,7 @@ class Typer:
                 if e.kind == "spliced" and e.term[0] == "marker" and e.term[1] in self.prog.functions:
                     h = self.prog.functions[e.term[1]]
                     for nm, t in list(self.func_env(h).items()):
-                        env.setdefault(f"{nm}§{h.name}", t)
+                        env.setdefault(f"{nm}{e.extra.get('suffix', '§' + h.name)}", t)
             # un-annotated locals that stayed opaque: type of their (first) bound value
             for e in s.of_kind("bind"):
                 nm = e.term[1][1]
